@@ -1,6 +1,7 @@
 package lceth
 
 import (
+	"bytes"
 	"encoding/binary"
 
 	"github.com/ethereum/go-ethereum/crypto"
@@ -23,12 +24,36 @@ func depositMsg(seed uint64, i int, toChain uint64, salt int64) []byte {
 		ToChainID:           toChain,
 		ToContractAddress:   crypto.Keccak256([]byte{byte(i)})[:20],
 		Method:              "unlock",
-		Args:                crypto.Keccak256([]byte{0xa5, byte(i), byte(salt), byte(salt >> 8)})[:int(8+mod(salt, 24))],
+		// the last 8 bytes of Args (= of the whole encoding) are a counter the grinder may vary
+		Args: append(crypto.Keccak256([]byte{0xa5, byte(i), byte(salt), byte(salt >> 8)})[:int(8+mod(salt, 24))], make([]byte, 8)...),
 	}
 	sink := common.NewZeroCopySink(nil)
 	mp.Serialization(sink)
 	return sink.Bytes()
 }
+
+// grind varies the trailing counter of msg (deterministically: 0, 1, 2, ...) until the
+// Keccak-256 of the message satisfies pred; false if the cap is reached (msg then keeps the
+// last counter tried).
+func grind(msg []byte, max uint64, pred func(h []byte) bool) bool {
+	for c := uint64(0); c < max; c++ {
+		binary.BigEndian.PutUint64(msg[len(msg)-8:], c)
+		if pred(crypto.Keccak256(msg)) {
+			return true
+		}
+	}
+	return false
+}
+
+// deposit kinds (third argument of a "dep" step, modulo depKinds)
+const (
+	depBadDest   = 7  // message addressed to an unregistered chain
+	depShort1    = 8  // the slot holds a 1-byte non-hash value; the message is ground so that its hash ENDS in it
+	depShort2    = 9  // same with a 2-byte value
+	depShortEdge = 10 // same with an edge value: 0x00, 0x0100, 0x80, 0x7f
+	depLeadZero  = 11 // genuine deposit whose message hash starts with a zero byte (stored as 31 bytes)
+	depKinds     = 12
+)
 
 // buildTree creates every node of the plan ("hdr" steps, in order) with the deposits the plan
 // puts into their blocks ("dep" steps: [nodeSel, acct, msgKind, salt]) and seals them.
@@ -47,10 +72,35 @@ func (w *world) buildTree(steps []kernel.Step) {
 		}
 		e := int(mod(st.Arg(0), int64(nExt)))
 		to := dstChainID
-		if mod(st.Arg(2), 8) == 7 {
+		kind := mod(st.Arg(2), depKinds)
+		if kind == depBadDest {
 			to = badChainID
 		}
 		d := &Deposit{Idx: len(w.c.Deps), Acct: int(mod(st.Arg(1), 2)), Slot: slotOf(len(w.c.Deps)), Msg: depositMsg(w.run.Plan.Seed, len(w.c.Deps), to, st.Arg(3))}
+		switch kind {
+		case depShort1, depShort2, depShortEdge:
+			// a slot of the CCMC that does not hold a message hash at all (a flag, a counter ...)
+			d.Acct = 0
+			salt := st.Arg(3)
+			switch kind {
+			case depShort1:
+				d.Short = []byte{byte(1 + mod(salt, 255))}
+			case depShort2:
+				d.Short = []byte{byte(1 + mod(salt, 255)), byte(salt >> 8)}
+			default:
+				d.Short = [][]byte{{0x00}, {0x01, 0x00}, {0x80}, {0x7f}}[mod(salt, 4)]
+			}
+			max := uint64(8192)
+			if len(d.Short) == 2 {
+				max = 150000
+			}
+			short := d.Short
+			d.Ground = grind(d.Msg, max, func(h []byte) bool { return bytes.HasSuffix(h, short) })
+		case depLeadZero:
+			d.Acct = 0
+			d.Ground = grind(d.Msg, 8192, func(h []byte) bool { return h[0] == 0 })
+			d.LeadZero = d.Ground
+		}
 		w.c.Deps = append(w.c.Deps, d)
 		depsOf[e] = append(depsOf[e], d.Idx)
 	}
